@@ -156,12 +156,26 @@ def run_check(pid, level, module_run, argv):
                 os.remove(os.path.join(VIOL_DIR, f))
             except OSError:
                 pass
+    # watchdog: an analysis that does not terminate in reasonable time certifies nothing (fail closed through the engine rule)
+    import signal
+    budget = int(os.environ.get("VERIF_BUDGET_S", "1500" if tier == "quick" else "5400"))
+
+    def _alarm(_sig, _frm):
+        raise TimeoutError("analysis did not finish within %d s" % budget)
+    try:
+        signal.signal(signal.SIGALRM, _alarm)
+        signal.alarm(budget)
+    except (ValueError, AttributeError):
+        pass
     try:
         module_run(ctx)
+        signal.alarm(0)
     except factsmod.AnalysisError as e:
+        signal.alarm(0)
         print("ANALYSIS-ERROR property=%s: %s" % (pid, e))
         return 2
     except Exception as e:
+        signal.alarm(0)
         # Fail closed: a construct the rule engine cannot read means the rules certify nothing about this tree. It is reported as a
         # violation of rule "engine" (with the exception as its text), not silently as an error of the checker.
         traceback.print_exc()
